@@ -10,7 +10,12 @@ for spec in "$@"; do
     *seeded/*) name=$(basename "$d") ;;
     *) name=$(echo "$d" | sed 's#/tmp/mut[0-9]*/##; s#/out/#_#; s#/#_#g') ;;
   esac
-  /venv/bin/python "$HERE/tools_evalmut.py" "$d" ${pids//,/ } > "$OUT/$name.json" 2>&1
+  if [ -s "$OUT/$name.json" ] && /venv/bin/python -c "import json,sys; json.load(open(sys.argv[1]))" "$OUT/$name.json" 2>/dev/null; then
+    echo "skip $name (already evaluated)"
+  else
+    /venv/bin/python "$HERE/tools_evalmut.py" "$d" ${pids//,/ } > "$OUT/$name.json.tmp" 2>&1
+    mv "$OUT/$name.json.tmp" "$OUT/$name.json"
+  fi
   /venv/bin/python - "$OUT/$name.json" <<'PY'
 import json,sys
 try:
